@@ -333,8 +333,9 @@ fn dec_value(bytes: &[u8], idx: &mut usize, depth: usize) -> Result<Value> {
         }
         4 => {
             let len = read_len(bytes, idx, info)? as usize;
-            // Every element occupies at least one byte: never reserve more than the input holds.
-            let mut items = Vec::with_capacity(len.min(bytes.len().saturating_sub(*idx)));
+            // Grow as elements are decoded (each consumes at least one input byte): a declared
+            // length reserves nothing, so nested containers cannot multiply a reservation.
+            let mut items = Vec::new();
             for _ in 0..len {
                 items.push(dec_value(bytes, idx, depth + 1)?);
             }
@@ -342,8 +343,8 @@ fn dec_value(bytes: &[u8], idx: &mut usize, depth: usize) -> Result<Value> {
         }
         5 => {
             let len = read_len(bytes, idx, info)? as usize;
-            // Every entry occupies at least two bytes: never reserve more than the input holds.
-            let mut entries = Vec::with_capacity(len.min(bytes.len().saturating_sub(*idx) / 2));
+            // Grow as entries are decoded: a declared length reserves nothing (see arrays).
+            let mut entries = Vec::new();
             let mut last_key: Option<Vec<u8>> = None;
             for _ in 0..len {
                 let key_start = *idx;
